@@ -82,7 +82,7 @@ func bech32DataLenPremise(pr *Prover, in ssa.Instruction) (bool, string) {
 		return false, "sliced value is not the result of an in-repo one-argument call"
 	}
 	if !onePerChar(call.Call.StaticCallee()) {
-		return false, "callee does not append exactly one byte per input character"
+		return false, "callee does not return exactly one byte per input character"
 	}
 	arg := call.Call.Args[0]
 	if ok, _ := pr.Prove(in.Block(), constLin(6).add(pr.lc.LenLin(arg), -1)); !ok {
@@ -100,6 +100,25 @@ func onePerChar(fn *ssa.Function) bool {
 	}
 	pa := fn.Params[0]
 	same := func(v ssa.Value) bool { return v == ssa.Value(pa) }
+	// the other spelling: the result is made with the argument's length and filled by index, so every success return
+	// hands out a value whose length IS len(argument) as a linear term
+	{
+		lcx := NewLinCtx(nil, fn)
+		want := lcx.LenLin(pa)
+		n, all := 0, true
+		for _, ret := range returnsOf(fn) {
+			if len(ret.Results) != 2 || !isNilConst(ret.Results[1]) {
+				continue
+			}
+			n++
+			if isNilConst(ret.Results[0]) || !linEq(lcx.LenLin(ret.Results[0]), want) {
+				all = false
+			}
+		}
+		if n > 0 && all {
+			return true
+		}
+	}
 	for _, b := range fn.Blocks {
 		for _, in := range b.Instrs {
 			ph, ok := in.(*ssa.Phi)
